@@ -7,6 +7,8 @@ package pivreg
 
 import (
 	"fmt"
+	"os"
+	"strings"
 	"time"
 
 	"Havoc/pkg/agent"
@@ -24,8 +26,117 @@ const (
 	req = 0x00c0ffee
 )
 
-// Run explores the scenario for property prop (signature prefix "<prop>/sched-register").
+// Run explores both scenarios.
 func Run(r *ev.Run, bound int, deadline time.Duration) {
+	runRegister(r, bound, deadline)
+	runAnswer(r, bound, deadline)
+}
+
+// runAnswer: C is a session behind D.  An operator's task for C is being issued while the
+// listener serves D's check-ins; as soon as a check-in hands out the wrapped task, the
+// agent's answer comes back relayed by D in the very next request.  Whatever the
+// interleaving: an answer to a task that was handed out is acted upon (a task is not
+// fetchable before its request id is outstanding on the session it is for).
+func runAnswer(r *ev.Run, bound int, deadline time.Duration) {
+	if !vsched.Instrumented {
+		return
+	}
+	outcomes := map[string]bool{}
+	sleepBody := func(d, j uint32) []byte { w := &demonwire.W{}; w.I32(d).I32(j); return w.B }
+	t := explore.Tree{Bound: bound, Deadline: time.Now().Add(deadline)}
+	t.Run(func(c *explore.Chooser) {
+		ts := seam.New(seam.Options{})
+		defer ts.Close()
+		ts.MustRegister(idD, 1)
+		b := &demonwire.W{}
+		b.I32(agent.DEMON_PIVOT_SMB_CONNECT).I32(1).Bytes(demonwire.Register(idC, seam.Key(3), seam.IV(3), demonwire.DefaultMeta(idC)))
+		ts.CheckIn(idD, 1, demonwire.Sub{Cmd: agent.COMMAND_PIVOT, Body: b.B})
+		cA := ts.Agent(idC)
+		if cA == nil {
+			r.Violate("sched-answer/setup", "C did not register behind D", nil)
+			return
+		}
+		s := vsched.New(c, 20000, "JobQueue", "Tasks", "sync.Mutex", "Parent", "Links")
+		s.SpinFree = 16
+		var bad []string
+		handedOut, answered := false, false
+		s.Spawn("operator", func() {
+			if p := ts.Task(idC, fmt.Sprintf("%08x", req), agent.COMMAND_SLEEP, map[string]any{"Arguments": "5;10"}); p != nil && !vsched.IsAbort(p) {
+				bad = append(bad, fmt.Sprint("operator: ", p))
+			}
+		})
+		s.Spawn("listener", func() {
+			for i := 0; i < 2 && !handedOut; i++ {
+				res, tasks, _ := ts.CheckIn(idD, 1)
+				if res.Panic != nil {
+					if !vsched.IsAbort(res.Panic) {
+						bad = append(bad, fmt.Sprintf("listener: %v @ %s", res.Panic, res.Stack))
+					}
+					return
+				}
+				for _, tk := range tasks {
+					if tk.Cmd == agent.COMMAND_PIVOT {
+						handedOut = true
+					}
+				}
+			}
+			if !handedOut {
+				return
+			}
+			// C's answer, relayed by D
+			pkg := demonwire.CallbacksOnly(idC, seam.Key(3), seam.IV(3), demonwire.Sub{Cmd: agent.COMMAND_SLEEP, ReqID: req, Body: sleepBody(42, 3)})
+			w := &demonwire.W{}
+			w.I32(agent.DEMON_PIVOT_SMB_COMMAND).Bytes(pkg)
+			res, _, _ := ts.CheckIn(idD, 1, demonwire.Sub{Cmd: agent.COMMAND_PIVOT, Body: w.B})
+			if res.Panic != nil && !vsched.IsAbort(res.Panic) {
+				bad = append(bad, fmt.Sprintf("listener: %v @ %s", res.Panic, res.Stack))
+			}
+			answered = true
+		})
+		s.Run()
+		detail := map[string]any{"choices": c.Choices(), "schedule_tail": tail(s.Trace, 60)}
+		switch {
+		case len(s.Panics) > 0 || len(bad) > 0:
+			all := append(append([]string(nil), s.Panics...), bad...)
+			r.Violate("sched-answer/panic/"+ev.Normalize(all[0]), fmt.Sprint(all), detail)
+			return
+		case s.Deadlock:
+			r.Violate("sched-answer/deadlock", s.DeadlockWhy, detail)
+			return
+		case s.HorizonHit:
+			r.Violate("sched-answer/horizon", "did not finish", detail)
+			return
+		case len(s.Held()) > 0:
+			r.Violate("sched-answer/lock-held", fmt.Sprint(s.Held()), detail)
+			return
+		}
+		acted := cA.Info.SleepDelay == 42
+		obs := fmt.Sprintf("handed-out-during-the-run=%v answered=%v acted=%v", handedOut, answered, acted)
+		outcomes[obs] = true
+		detail["observed"] = obs
+		if os.Getenv("VERIF_PIVREG_DEBUG") != "" {
+			fmt.Fprintln(os.Stderr, "DBG", obs, c.Choices(), strings.Join(s.Trace, " | "))
+		}
+		if answered && !acted {
+			r.Violate("sched-answer/answer-to-a-handed-out-task-dropped", "the wrapped task left with D's check-in, its answer came back with D's next request and was not acted upon (the request id was not outstanding on C yet): "+obs, detail)
+		}
+	})
+	if t.Err != nil {
+		r.Violate("harness/nondeterminism", t.Err.Error(), nil)
+	}
+	if t.Capped {
+		r.NotExhaustive("answer-vs-issue schedules stopped by the internal deadline")
+	}
+	for o := range outcomes {
+		r.Outcome("sched-answer/" + o)
+	}
+	r.Extra["schedules_answer_vs_issue"] = map[string]any{"executions": t.Executions, "choice_points": t.Points, "preemption_bound": bound, "distinct_observations": len(outcomes)}
+	r.Eval(int(t.Executions))
+	r.AddStates(t.Points, t.Points, t.Executions)
+}
+
+// runRegister explores the registration scenario.
+func runRegister(r *ev.Run, bound int, deadline time.Duration) {
 	if !vsched.Instrumented {
 		r.Violate("harness/not-instrumented", "the registration-vs-task scenario needs the sched build", nil)
 		return
@@ -38,6 +149,7 @@ func Run(r *ev.Run, bound int, deadline time.Duration) {
 		defer ts.Close()
 		d := ts.MustRegister(idD, 1)
 		s := vsched.New(c, 20000, "JobQueue", "Tasks", "sync.Mutex", "Agents", "Parent", "Links")
+		s.SpinFree = 16
 		var bad []string
 		var inRun []demonwire.Task
 		s.Spawn("listener", func() {
